@@ -378,7 +378,8 @@ def _bump(p, f):
 
 
 UPDATES = [
-    ("x updated in place; x / 2", "C05", lambda F: _bump(F.x, lambda x: x / 2)), ("x updated in place; x % 3", "C05", lambda F: _bump(F.x, lambda x: x % 3)),
+    ("x updated in place; x / 2", "C05", lambda F: _bump(F.x, lambda x: x / 2)), ("x updated in place; x // 2", "C05", lambda F: _bump(F.x, lambda x: x // 2)),
+    ("s updated in place; s % d", "C05", lambda F: _bump(F.s, lambda p: p % F.d)), ("s / d", "C05", lambda F: F.s / F.d), ("divmod(s, d)", "C05", lambda F: divmod(F.s, F.d)), ("x updated in place; x % 3", "C05", lambda F: _bump(F.x, lambda x: x % 3)),
     ("raw updated in place; raw / d", "C05", lambda F: _bump(F.raw, lambda r: r / (F.d + F.d * F.d))), ("s updated in place; poly_divmod(s, d)", "C05", lambda F: _bump(F.s, lambda p: numpoly.poly_divmod(p, F.d))),
     ("x updated in place; x + y", "C01", lambda F: _bump(F.x, lambda x: x + F.y)), ("x updated in place; x * y", "C01 C20", lambda F: _bump(F.x, lambda x: x * F.y)),
     ("x updated in place; x(n0=2)", "C02", lambda F: _bump(F.x, lambda x: x(**{F.n0: 2}))), ("c updated in place; tonumpy(c)", "C02 C19 C11", lambda F: _bump(F.c, lambda c: numpy.array(numpoly.tonumpy(c)))),
@@ -589,12 +590,12 @@ def plan(E, pid, mode, lo, hi, tier):
                             if a != a2 and a2 != b:
                                 hs.append([(a, 1), (a2, 0), (b, 0)])
     elif mode == "same":   # the caller passes the SAME argument objects to one call after the other (no result is written to)
-        fs = sorted(byf)
         for v in (("base", "retain_names") if tier == "quick" else VARIANTS):
             own = [i for i in mine if E[i]["v"] == v]
-            for n, a in enumerate(own[lo:hi]):
-                k = (lo + n) % max(1, len(own))
-                hs.append([(a, 0)] + [(b, 0) for b in own[k:] + own[:k]])
+            # every ordered pair of the property's calls adjacent in some history (a memo that remembers only the latest
+            # call by the identity of its arguments is hit by the very next call or not at all)
+            for cyc in _cycles(len(own))[lo:hi]:
+                hs.append([(own[i], 0) for i in cyc])
     else:                  # every menu entry (of any function family) as a one-call prefix of this property's calls
         keep_v = VARIANTS if tier == "thorough" else QUICK_PREFIX_VARIANTS
         keep_b = THOROUGH_OBSERVED_VARIANTS if tier == "thorough" else ("base",)
@@ -733,10 +734,11 @@ def case_list(pid, tier):
         if acc >= (240 if tier == "quick" else 2400) or n == len(allA) - 1:
             out.append({"k": "history", "mode": "cross", "lo": lo, "hi": n + 1, "tier": tier})
             lo, acc = n + 1, 0
-    E = entries()
     nown = len([1 for e in E if pid in e["pids"] and e["v"] == "base"])
-    for lo in range(0, nown, 4):
-        out.append({"k": "history", "mode": "same", "lo": lo, "hi": min(nown, lo + 4), "tier": tier})
+    ncyc = len(_cycles(nown))
+    step = max(1, ncyc // 12)
+    for lo in range(0, ncyc, step):
+        out.append({"k": "history", "mode": "same", "lo": lo, "hi": min(ncyc, lo + step), "tier": tier})
     return out
 
 
